@@ -154,24 +154,26 @@ func clientMain(s *simrt.Sim, info *harness.RunInfo) {
 // ---- (a) hand-off ---------------------------------------------------------------------
 
 type hoOp struct {
-	id       int
-	token    string
-	timeout  time.Duration // request level (0 = none)
-	cancelAt time.Duration // harness cancels the context after this long (0 = never)
-	redirect bool
-	plan     *tplan
-	start    time.Time
-	err      error
-	status   int
-	body     string
-	echo     string
-	done     bool
-	elapsed  time.Duration
-	cliTO    time.Duration
-	retries  int
-	mustFail bool
-	mayFail  bool
-	mustOK   bool
+	id         int
+	token      string
+	timeout    time.Duration // request level (0 = none)
+	cancelAt   time.Duration // harness cancels the context after this long (0 = never)
+	redirect   bool
+	plan       *tplan
+	start      time.Time
+	err        error
+	status     int
+	body       string
+	echo       string
+	done       bool
+	elapsed    time.Duration
+	cliTO      time.Duration
+	retries    int
+	mustFail   bool
+	mayFail    bool
+	mustOK     bool
+	ticket     string
+	hookPanics bool
 }
 
 func clientHandoff(s *simrt.Sim, info *harness.RunInfo) {
@@ -182,13 +184,19 @@ func clientHandoff(s *simrt.Sim, info *harness.RunInfo) {
 	useRetry := s.Chance(250)
 	preempt := simrt.PickS(s, 150, 400, 50, 0)
 	dialSplit := simrt.PickS(s, 0, 1, 2, 0) // how much of a transport delay passes before the request is written: none, half, all
-	cfgLine := fmt.Sprintf("handoff faults=%v tasks=%d clientTimeout=%v retry=%v preempt=%d dialSplit=%d", faults, ntasks, cliTimeout, useRetry, preempt, dialSplit)
+	// a user request hook that configures a client-level value for the request at hand (hooks are given the client
+	// for that); the builtin hooks that follow it merge the client's headers into that request
+	ticketHook := s.Chance(250)
+	// fault: the hook panics for some requests and the caller recovers; the client must stay usable
+	hookPanics := faults && ticketHook && s.Chance(400)
+	cfgLine := fmt.Sprintf("handoff faults=%v tasks=%d clientTimeout=%v retry=%v preempt=%d dialSplit=%d ticketHook=%v hookPanics=%v", faults, ntasks, cliTimeout, useRetry, preempt, dialSplit, ticketHook, hookPanics)
 	s.Logf("cfg %s", cfgLine)
 
 	app := fiber.New()
 	app.Get("/echo", func(c fiber.Ctx) error {
 		tok := strings.Clone(c.Get("X-Token"))
 		c.Set("X-Echo", tok)
+		c.Set("X-Ticket-Echo", strings.Clone(c.Get("X-Ticket")))
 		return c.SendString("echo:" + tok)
 	})
 	app.Get("/redir", func(c fiber.Ctx) error {
@@ -202,6 +210,21 @@ func clientHandoff(s *simrt.Sim, info *harness.RunInfo) {
 	}
 	if useRetry {
 		cl.SetRetryConfig(&client.RetryConfig{InitialInterval: 100 * time.Millisecond, MaxBackoffTime: time.Second, Multiplier: 2, MaxRetryCount: 3})
+	}
+	if ticketHook {
+		cl.AddRequestHook(func(c *client.Client, r *client.Request) error {
+			tok := ""
+			if v := r.Header("X-Token"); len(v) > 0 {
+				tok = v[0]
+			}
+			c.SetHeader("X-Ticket", "ticket-for-"+tok)
+			simrt.Yield(2101)
+			if len(r.Header("X-Hook-Panics")) > 0 {
+				s.Count("fault_request_hook_panic")
+				panic("request hook: injected panic")
+			}
+			return nil
+		})
 	}
 
 	var all []*hoOp
@@ -238,6 +261,9 @@ func clientHandoff(s *simrt.Sim, info *harness.RunInfo) {
 			if s.Chance(120) {
 				op.cancelAt = simrt.PickS(s, base/2, base, 10*time.Millisecond)
 			}
+			if hookPanics && s.Chance(200) {
+				op.hookPanics = true
+			}
 			tr.plans[op.token] = op.plan
 			all = append(all, op)
 			plans[ti] = append(plans[ti], op)
@@ -272,13 +298,29 @@ func clientHandoff(s *simrt.Sim, info *harness.RunInfo) {
 				if op.redirect {
 					path = "/redir"
 				}
-				resp, err := req.Get("http://a.example" + path)
+				if op.hookPanics {
+					req.SetHeader("X-Hook-Panics", "1")
+				}
+				var resp *client.Response
+				var err error
+				func() {
+					defer func() {
+						if p := recover(); p != nil {
+							if !op.hookPanics {
+								panic(p)
+							}
+							err = fmt.Errorf("recovered: %v", p)
+						}
+					}()
+					resp, err = req.Get("http://a.example" + path)
+				}()
 				op.elapsed = time.Since(op.start)
 				op.err = err
 				if err == nil {
 					op.status = resp.StatusCode()
 					op.body = string(resp.Body())
 					op.echo = strings.Clone(resp.Header("X-Echo"))
+					op.ticket = strings.Clone(resp.Header("X-Ticket-Echo"))
 					resp.Close() // also releases the request
 				} else {
 					client.ReleaseRequest(req)
@@ -323,7 +365,7 @@ func clientHandoff(s *simrt.Sim, info *harness.RunInfo) {
 				}
 			}
 			deadlineHit := eff > 0 && op.elapsed >= eff
-			if !transportFailed && !deadlineHit {
+			if !transportFailed && !deadlineHit && !op.hookPanics {
 				s.Fail("C18.spurious-error", "op%d %s returned %v after %v although no transport attempt failed and its deadline (%v) had not passed", op.id, op.token, op.err, op.elapsed, eff)
 			}
 			if eff > 0 && op.elapsed == eff {
@@ -332,6 +374,9 @@ func clientHandoff(s *simrt.Sim, info *harness.RunInfo) {
 		} else {
 			if op.body != "echo:"+op.token || op.echo != op.token || op.status != 200 {
 				s.Fail("C18.response-belongs-to-request", "op%d %s was handed status=%d body=%q X-Echo=%q: not the response to this request", op.id, op.token, op.status, op.body, op.echo)
+			}
+			if ticketHook && op.ticket != "ticket-for-"+op.token {
+				s.Fail("C18.client-value-set-by-hook-reached-another-request", "op%d %s: its request hook set the client-level header X-Ticket to %q, the server received %q", op.id, op.token, "ticket-for-"+op.token, op.ticket)
 			}
 			if eff > 0 && op.elapsed > eff {
 				s.Fail("C18.timeout-ignored", "op%d %s succeeded after %v, its deadline was %v", op.id, op.token, op.elapsed, eff)
